@@ -25,7 +25,9 @@ func init() {
 }
 
 var filters = []string{"a/b/", "b/a/", "a/a/", "b/b/", "x/x/y/", "y/", "a/", "a/+/"}
-var probes = []string{"a/b/", "b/a/", "a/a/", "b/b/", "c/c/", "x/x/y/", "y/", "a/", "a/b/c/", "x/x/", "presence/q/"}
+var probes = []string{"a/b/", "b/a/", "a/a/", "b/b/", "c/c/", "x/x/y/", "y/", "a/", "a/b/c/", "x/x/", "presence/q/",
+	// names that differ only in case, only after a long common prefix, or only in a punctuation character
+	"Case/x/", "case/x/", "averyveryverylongchannellevelname-1/", "averyveryverylongchannellevelname-2/", "user.name/", "user_name/"}
 var mqttFilters = []string{"a/b/", "b/a/", "a/+/", "a/#/", "a/", "#/"}
 
 type opDesc struct {
@@ -88,6 +90,10 @@ func collisionAlphabet() []opDesc {
 	ops = append(ops, opDesc{Kind: "sub", Client: 1, Filter: "b/b/"}, opDesc{Kind: "unsub", Client: 1, Filter: "b/b/"})
 	// a channel spelled like one of the words the broker reserves for its own subscriptions: an ordinary name to a client
 	ops = append(ops, opDesc{Kind: "sub", Client: 1, Filter: "presence/q/"}, opDesc{Kind: "unsub", Client: 1, Filter: "presence/q/"})
+	// one of each pair of look-alike names (the probes publish to both)
+	for _, f := range []string{"Case/x/", "averyveryverylongchannellevelname-1/", "user.name/"} {
+		ops = append(ops, opDesc{Kind: "sub", Client: 1, Filter: f})
+	}
 	return ops
 }
 
@@ -122,7 +128,7 @@ func newWorkerEnv(mode string) *workerEnv {
 	w.rw = w.env.MustKey("#/", security.AllowRead|security.AllowWrite)
 	w.wo = w.env.MustKey("#/", security.AllowWrite)
 	w.ro = w.env.MustKey("#/", security.AllowRead)
-	all := append(append([]string{"c/c/", "presence/q/"}, filters...), mqttFilters...)
+	all := append(append([]string{"c/c/", "presence/q/", "Case/x/", "averyveryverylongchannellevelname-1/", "user.name/"}, filters...), mqttFilters...)
 	for _, f := range all {
 		ch := security.ParseChannel([]byte("k/" + f))
 		ssid := message.NewSsid(w.env.License.Contract(), ch.Query)
